@@ -37,7 +37,8 @@ def floors(tier):
             "proxy_controls_touched": 500, "via_dollar_schema": 2000, "with_format_checker": 2000,
             "best_match_is_descendant": 500, "best_match_is_toplevel": 2000,
             "reused_validator_sequences": 1000, "root_reference_objects": 500,
-            "fault_cases": 2000, "fault_after_first_error": 300, "fault_before_first_error": 300}
+            "fault_cases": 2000, "fault_after_first_error": 300, "fault_before_first_error": 300,
+            "explicit_class_with_foreign_dollar_schema": 1000}
 
 
 # ------------------------------------------------------------------ recording proxies
@@ -322,6 +323,32 @@ def reused_validator_sequence(ctx, d, arr, insts):
                 return
 
 
+DIALECT_SENSITIVE = [{"exclusiveMinimum": 5, "minimum": 1}, {"exclusiveMinimum": True, "minimum": 1}, {"required": ["a"]}, {"required": True},
+                     {"items": True}, {"properties": {"a": False}}, {"type": "any"}, {"divisibleBy": 2}, {"const": 1, "contains": {}},
+                     {"dependencies": {"a": "b"}}, {"dependencies": {"a": ["b"]}}, {"extends": {"type": "string"}}, {"disallow": "string"},
+                     {"propertyNames": {"maxLength": 1}}, {"if": {"type": "integer"}, "then": {"minimum": 3}}, {"additionalItems": 5}, {"enum": []}]
+
+
+def foreign_dollar_schema(ctx, C, rng, d, schema, insts):
+    """An EXPLICIT class together with a `$schema` that names another draft (or nothing known): the explicit class and
+    ITS metaschema decide - for the schema check as well as for validation."""
+    cls = impl.CLS[d]
+    others = [impl.META_ID[o] for o in impl.DRAFTS if o != d]
+    for base in (schema, rng.choice(DIALECT_SENSITIVE), rng.choice(DIALECT_SENSITIVE)):
+        tagged = dict(base)
+        tagged["$schema"] = rng.choice(others + [o.rstrip("#") for o in others] + ["http://vf.example/unknown-dialect#"])
+        try:
+            bad = next(cls(cls.META_SCHEMA).iter_errors(tagged), None) is not None
+        except Exception:
+            continue
+        ctx.count("explicit_class_with_foreign_dollar_schema")
+        if bad:
+            C.invalid_schema_case(d, tagged, insts[0] if isinstance(insts[0], (dict, list)) else {"a": [1, {"b": 2}]}, False)
+        else:
+            for inst in insts[:2] + [{"a": 1}, 5]:
+                C.valid_schema_case(d, tagged, inst, use_fc=False, via_schema_kw=False)
+
+
 class _Boom(LookupError):
     pass
 
@@ -401,6 +428,8 @@ def run(ctx):
             C.valid_schema_case(d, schema, inst, use_fc=rng.random() < 0.3, via_schema_kw=via)
         if i % 2 == 0:
             fault_variants(ctx, C, rng, d, schema, insts)
+        if i % 3 == 1 and isinstance(schema, dict) and not via:
+            foreign_dollar_schema(ctx, C, rng, d, schema, insts)
         C.proxy_control(d, schema, insts[0])
         if i % 3 == 0 and isinstance(schema, dict) and not via:
             from vf.gen import refs as R
